@@ -546,6 +546,98 @@ func head8(b []byte) []byte {
 }
 `
 
+
+const oracleLayoutTest = `package shmipc
+
+import (
+	"fmt"
+	"testing"
+	"unsafe"
+)
+
+func vyOff(mem []byte, p unsafe.Pointer) int {
+	return int(uintptr(p) - uintptr(unsafe.Pointer(&mem[0])))
+}
+
+// both sides derive the same layout: create on one side, map on the other, compare every offset; classes are
+// disjoint, ordered and inside the mapping; the two queues are cross-wired.
+func TestVerifOracleLayout(t *testing.T) {
+	defer func() {
+		if r := recover(); r != nil {
+			fmt.Printf("REPLAY-VIOLATED: panic: %v\n", r)
+		}
+	}()
+	cfgs := [][]*SizePercentPair{
+		{{Size: 64, Percent: 100}},
+		{{Size: 16, Percent: 50}, {Size: 200, Percent: 50}},
+		{{Size: 8, Percent: 10}, {Size: 100, Percent: 30}, {Size: 1000, Percent: 60}},
+		{{Size: 4096, Percent: 1}, {Size: 32, Percent: 99}},
+	}
+	for ci, pairs := range cfgs {
+		for _, size := range []int{1 << 13, 1<<15 + 13, 70001} {
+			for _, off := range []uint32{0, 24, 1000} {
+				mem := make([]byte, size)
+				a, err := createBufferManager(pairs, "", mem, off)
+				if err != nil {
+					continue // too small for this configuration: allowed to fail
+				}
+				b, err := mappingBufferManager("", mem, off)
+				tag := fmt.Sprintf("config %d, %d bytes, offset %d", ci, size, off)
+				if err != nil || len(a.lists) != len(b.lists) {
+					fmt.Printf("REPLAY-VIOLATED: %s: the peer cannot map what was created (err=%v, %d vs %d classes)\n", tag, err, len(a.lists), len(b.lists))
+					return
+				}
+				prevEnd := int(off)
+				for i := range a.lists {
+					x, y := a.lists[i], b.lists[i]
+					stride := int(*x.capPerBuffer) + bufferHeaderSize
+					xs := vyOff(mem, unsafe.Pointer(&x.bufferRegion[0]))
+					if *x.cap != *y.cap || *x.capPerBuffer != *y.capPerBuffer || x.bufferRegionOffsetInShm != y.bufferRegionOffsetInShm || x.offsetInShm != y.offsetInShm ||
+						len(x.bufferRegion) != len(y.bufferRegion) || &x.bufferRegion[0] != &y.bufferRegion[0] ||
+						x.size != y.size || x.head != y.head || x.tail != y.tail || x.cap != y.cap || x.capPerBuffer != y.capPerBuffer {
+						fmt.Printf("REPLAY-VIOLATED: %s, class %d: creator and peer disagree (cap %d/%d, capPerBuffer %d/%d, region offset %d/%d, len %d/%d)\n", tag, i, *x.cap, *y.cap, *x.capPerBuffer, *y.capPerBuffer, x.bufferRegionOffsetInShm, y.bufferRegionOffsetInShm, len(x.bufferRegion), len(y.bufferRegion))
+						return
+					}
+					if *x.capPerBuffer != pairs[i].Size || len(x.bufferRegion) != int(*x.cap)*stride || xs != int(x.bufferRegionOffsetInShm) || int(x.offsetInShm)+bufferListHeaderSize != xs ||
+						vyOff(mem, unsafe.Pointer(x.size)) != int(x.offsetInShm) || int(x.offsetInShm) < prevEnd || xs+len(x.bufferRegion) > len(mem) {
+						fmt.Printf("REPLAY-VIOLATED: %s, class %d: header at %d, slots at %d..%d (%d slots of %d+20 bytes), previous class ends at %d, mapping %d bytes\n", tag, i, x.offsetInShm, xs, xs+len(x.bufferRegion), *x.cap, *x.capPerBuffer, prevEnd, len(mem))
+						return
+					}
+					prevEnd = xs + len(x.bufferRegion)
+				}
+			}
+		}
+	}
+	for _, c := range []uint32{0, 1, 3, 64} {
+		data := make([]byte, countQueueMemSize(c)+5)
+		q := createQueueFromBytes(data, c)
+		m := mappingQueueFromBytes(data)
+		if q.cap != m.cap || q.head != m.head || q.tail != m.tail || q.workingFlag != m.workingFlag || len(q.queueBytesOnMemory) != len(m.queueBytesOnMemory) ||
+			(c > 0 && &q.queueBytesOnMemory[0] != &m.queueBytesOnMemory[0]) || len(q.queueBytesOnMemory) != int(c)*queueElementLen {
+			fmt.Printf("REPLAY-VIOLATED: queue of capacity %d: creator and peer disagree on the layout\n", c)
+			return
+		}
+	}
+	qm, err := createQueueManagerWithMemFd("verif-oracle-queue", 8)
+	if err == nil {
+		pm, err := mappingQueueManagerMemfd("verif-oracle-queue", qm.memFd)
+		if err != nil {
+			fmt.Printf("REPLAY-VIOLATED: the peer cannot map the queue pair: %v\n", err)
+			return
+		}
+		qm.sendQueue.put(queueElement{seqID: 7})
+		qm.recvQueue.put(queueElement{seqID: 9})
+		e1, err1 := pm.recvQueue.pop()
+		e2, err2 := pm.sendQueue.pop()
+		if err1 != nil || err2 != nil || e1.seqID != 7 || e2.seqID != 9 {
+			fmt.Printf("REPLAY-VIOLATED: the queues are not cross-wired: what one side sends (7) the other receives as %d (err %v); the reverse direction (9) as %d (err %v)\n", e1.seqID, err1, e2.seqID, err2)
+			return
+		}
+	}
+	fmt.Println("REPLAY-NO-VIOLATION")
+}
+`
+
 // oracleReplay runs the executable reference for the function of a failed obligation (if there is one).
 func oracleReplay(e *Engine, o *Obligation, dir string) (bool, string) {
 	key := o.Func
@@ -558,6 +650,9 @@ func oracleReplay(e *Engine, o *Obligation, dir string) (bool, string) {
 		which = "queue"
 	case "(*streamPool).push", "(*streamPool).pop":
 		which = "pool"
+	case "mappingBufferManager", "countBufferListMemSize", "createQueueFromBytes", "mappingQueueFromBytes", "createQueue", "countQueueMemSize",
+		"createQueueManagerWithMemFd", "createQueueManager", "mappingQueueManagerMemfd", "mappingQueueManager", "lemmaCreateThenMapList", "lemmaCreateThenMapQueue":
+		which = "layout"
 	case "(*bufferList).pop", "(*bufferList).push", "createFreeBufferList", "mappingFreeBufferList", "newBufferSlice", "(*bufferSlice).reset",
 		"(bufferHeader).hasNext", "(bufferHeader).nextBufferOffset", "(bufferHeader).clearFlag", "(bufferHeader).setInUsed", "(bufferHeader).linkNext",
 		"(*bufferManager).recycleBuffer", "(*bufferManager).allocShmBuffer", "createBufferManager":
@@ -586,6 +681,10 @@ func oracleReplay(e *Engine, o *Obligation, dir string) (bool, string) {
 	if which == "pool" {
 		src = oraclePoolTest
 		runName, what = "^TestVerifOraclePool$", "push/pop on concrete pool states (bounded search: capacities 1..5, head/tail around the wrap points)"
+	}
+	if which == "layout" {
+		src = oracleLayoutTest
+		runName, what = "^TestVerifOracleLayout$", "layout (bounded search: 4 configurations x 3 mapping sizes x 3 start offsets created on one side and mapped on the other, every offset compared; queues of capacity 0/1/3/64; a memfd queue pair checked for cross-wiring)"
 	}
 	if which == "buf" {
 		src = oracleBufTest
